@@ -884,3 +884,7 @@ MUTANTS = [
 ]
 
 REPAIRS = []
+
+EQUIV = [
+    dict(name='rename locals of _replace_ugen', file='sc3/synth/synthdef.py', start='    def _replace_ugen(self, a, b):', end='    def _add_constant(self, value):', rename=[('aux', 'lst'), ('item', 'unit')]),
+]
